@@ -6,10 +6,12 @@
 #   TestC20Sweep     0.5 s per case (72 hostile URLs or 25 payload mutants per case), 4 x 25 cases = 15 s, about 5 000 requests;
 #   TestC20WellFormed 0.22 s per case (7-31 ops), 4 x 30 = 7 s;
 #   TestC20Parsers   20 000 in-process cases = 6 s.
-#   All four run side by side in the quick tier (13 processes): about 45-60 s wall.
+#   All four run side by side in the quick tier (13 processes): 38-45 s wall, about 8 300 hostile requests (47% answered 2xx, 53% 4xx),
+#   18 600 evaluations in total.
 # Without the findings listed every shard stops at its first violation (the unchanged tree has many, see findings.go), which is
 # faster, but each server death / never-idle wait costs 0.3 s / 25 s.
-# thorough: 16 shards; 500 mutant cases + 100 sweeps + 150 well-formed histories per shard (about 5 min) + 3 x 60 s native fuzzing.
+# Measured with 16 processes side by side: 8 x 250 mutant cases + 8 x 50 sweeps = 262 s (about 1 s per case per process).
+# thorough: 16 shards; 300 mutant cases + 40 sweeps + 80 well-formed histories per shard (48 processes, about 5 min) + 3 x 45 s native fuzzing.
 #
 # To run one test by hand (the child binary must be built and exported):
 #   cd /verif/harness && go build -tags "badger filelog verif" -modfile /verif/build/repo/verif.mod -o /tmp/c20-child ./cmd/verif-child
@@ -34,21 +36,21 @@ ENTRY = {
         "level": "exploration",
         "tools": ["verif-child"],
         "tests": [
-            T("TestC20Mutants", (110, 4, {"shrinktime": "15s"}), (500, 16, {"shrinktime": "30s"})),
-            T("TestC20Sweep", (25, 4, {"shrinktime": "5s"}), (100, 16, {"shrinktime": "10s"})),
-            T("TestC20WellFormed", (30, 4, {"shrinktime": "15s"}), (150, 16, {"shrinktime": "30s"})),
+            T("TestC20Mutants", (110, 4, {"shrinktime": "15s"}), (300, 16, {"shrinktime": "30s"})),
+            T("TestC20Sweep", (25, 4, {"shrinktime": "5s"}), (40, 16, {"shrinktime": "10s"})),
+            T("TestC20WellFormed", (30, 4, {"shrinktime": "15s"}), (80, 16, {"shrinktime": "30s"})),
             T("TestC20Parsers", (20000, 1), (300000, 4)),
         ],
         "fuzz": [
-            {"name": "FuzzC20BlockUnmarshal", "time": "60s"},
-            {"name": "FuzzC20Elements", "time": "60s"},
-            {"name": "FuzzC20LabelIndexProto", "time": "60s"},
+            {"name": "FuzzC20BlockUnmarshal", "time": "45s"},
+            {"name": "FuzzC20Elements", "time": "45s"},
+            {"name": "FuzzC20LabelIndexProto", "time": "45s"},
         ],
         "required_classes": (
             ["accepted/" + e for e in _PAYLOAD_ENDPOINTS] + ["rejected/" + e for e in _PAYLOAD_ENDPOINTS]
             + ["accepted/keyvalue/key", "parent/2xx", "certainly-malformed/4xx",
                "labelmap/blocks|trunc|4xx", "labelmap/blocks|field:len|4xx", "labelmap/raw|trunc|4xx",
-               "labelmap/split-supervoxel|field:count|4xx", "labelmap/index|field:len|4xx", "annotation/elements|json-value|4xx",
+               "labelmap/split-supervoxel|trunc|4xx", "labelmap/index|field:len|4xx", "annotation/elements|json-value|4xx",
                "annotation/elements|json-value|2xx", "keyvalue/keyvalues|trunc|4xx", "neuronjson/key|json-value|4xx", "roi/roi|json-value|4xx",
                "url/labelmap|url-huge|4xx", "url/labelmap|url-missing|4xx", "url/labelmap|url-label|4xx", "url/annotation|url-nonnum|4xx",
                "url/keyvalue|url-odd-bytes|2xx", "url/keyvalue|url-long|2xx", "url/uint8blk|url-neg|4xx", "url/neuronjson|url-label|4xx",
